@@ -27,6 +27,11 @@ PROVED (character level, for all inputs of the stated shape, no size bounds):
   operators, attributes, comments in normal form).
 * `print_parse_fixpoint`: for EVERY document that parses to at least one declaration and to no member-less struct,
   `parse (print (parse doc)) = parse doc`, comments included; well-formedness is derived from the parse, not assumed.
+* attributes applied: `array_descriptor_after_attributes` (for every element type, size and attribute list that applies:
+  the kind of the array after `apply_attributes` is `array fill` iff the size is `__FILL__` — whatever the attributes —,
+  else `array sized` iff `@is_byte_constrained` is among them, else `array`; size entry 0 for a fill array; the type
+  prints back as declared). The correspondence run compares descriptors, objects, `str` and print / parse / apply on the
+  attribute-applied declarations for every array kind x every attribute combination.
 * numerals: `decimal_numeral_roundtrip`, `hex_numeral_value` (`0x` + any leading zeros + the upper-case digits of `n`
   reads as `n`, for every `n`), `decimal_leading_zeros` (zeros + decimal digits of `n` reads as `n`),
   `hex_dec_same_value` (both spellings of every `n` scan to the same value), `hex_lowercase_not_numeral` (lower-case
@@ -56,6 +61,7 @@ import SymbolVerif.Proofs.CatsCrlf
 import SymbolVerif.Proofs.CatsComment
 import SymbolVerif.Proofs.CatsOutput
 import SymbolVerif.Proofs.CatsHex
+import SymbolVerif.Proofs.CatsApplied
 namespace SymbolVerif.C04
 open SymbolVerif.Cats SymbolVerif.Cats.Lexer SymbolVerif.Cats.Parser
 
@@ -306,6 +312,46 @@ theorem free_comment_dropped (c1 c2 : LLine) (hk1 : c1.kind = .comment) (hk2 : c
   refine ⟨?_, ?_, rfl⟩
   · simp only [topLoop, hk1, hk2, flushComment]
   · simp only [topLoop, hk1, flushComment, List.reverse_cons]
+
+/-! ### member attributes applied -/
+
+/-- **the descriptor of an array member once its attribute lines are applied** (`AstPostProcessor.apply_attributes`,
+    model `applyAttribute` folded over the attribute list in source order), for every element type, every size and every
+    attribute list that applies: the element type and the size are those of the declaration; the kind is `array fill`
+    when the size is `__FILL__` — whatever the attributes, `@is_byte_constrained` included —, otherwise `array sized` when
+    `@is_byte_constrained` is among the attributes, otherwise `array`; the size entry of a fill array is 0; and the
+    type prints back as it was declared (`array(T, __FILL__)` for a fill array), so that printing and parsing again
+    gives the same array. -/
+theorem array_descriptor_after_attributes (e : ElemType) (size : Scalar) (attrs : List Attribute) (t : FieldType)
+    (h : attrs.foldlM applyAttribute (.array ⟨e, size, {}⟩) = .ok t) :
+    ∃ b : ArrayType, t = .array b ∧ b.elementType = e ∧ b.rawSize = size ∧
+      b.disposition = (if size = .str fillPlaceholder then "array fill"
+        else if attrs.any (·.name == "is_byte_constrained") then "array sized" else "array") ∧
+      b.size = (if size = .str fillPlaceholder then .int 0 else size) ∧
+      b.render = (ArrayType.render ⟨e, size, {}⟩) := by
+  obtain ⟨b, rfl, he, hs, hb⟩ := applyAttributes_array attrs ⟨e, size, {}⟩ t h
+  simp only [Bool.false_or] at hb
+  have hdisp : b.disposition = (if size = .str fillPlaceholder then "array fill"
+      else if attrs.any (·.name == "is_byte_constrained") then "array sized" else "array") := by
+    simp only [ArrayType.disposition, ArrayType.isExpandable, ArrayType.isByteConstrained, hs, hb, decide_eq_true_eq]
+  have hsize : b.size = (if size = .str fillPlaceholder then .int 0 else size) := by
+    simp only [ArrayType.size, ArrayType.isExpandable, hs, decide_eq_true_eq]
+  refine ⟨b, rfl, he, hs, hdisp, hsize, ?_⟩
+  have hfill : (b.disposition = "array fill") ↔ size = .str fillPlaceholder := by
+    rw [hdisp]
+    by_cases hf : size = .str fillPlaceholder
+    · simp [hf]
+    · by_cases hc : attrs.any (·.name == "is_byte_constrained") = true <;> simp [hf, hc]
+  have hfill0 : ((⟨e, size, {}⟩ : ArrayType).disposition = "array fill") ↔ size = .str fillPlaceholder := by
+    by_cases hf : size = .str fillPlaceholder <;>
+      simp [ArrayType.disposition, ArrayType.isExpandable, ArrayType.isByteConstrained, hf]
+  simp only [ArrayType.render, he, hsize, hfill, hfill0]
+  by_cases hf : size = .str fillPlaceholder <;> simp [hf, ArrayType.size, ArrayType.isExpandable]
+
+/-- the instance the fourth-round seed broke: `@is_byte_constrained` on `array(T, __FILL__)` is still a fill array -/
+example : (applyAttribute (.array ⟨.int ⟨true, 1, none⟩, .str fillPlaceholder, {}⟩) ⟨"is_byte_constrained", []⟩).toOption.map
+    (fun t => match t with | .array b => (b.disposition, b.render) | _ => ("", "")) =
+    some ("array fill", "array(uint8, __FILL__)") := by decide
 
 /-! ### trivia -/
 
